@@ -47,6 +47,8 @@ pub struct Agg {
     pub twin_pairs: u64,
     pub cache_twin_diff_explored: u64,
     pub gap_checked: u64,
+    /// max over terminating runs of polls * 1000 / fuel (how far legitimate runs stay below the fuel bound)
+    pub max_fuel_permille: u64,
     pub outcomes: BTreeMap<String, u64>,
     pub samples: Vec<Value>,
     pub monitor_hits: BTreeMap<String, u64>,
@@ -57,7 +59,7 @@ impl Agg {
         self.primal_runs += o.primal_runs; self.primal_below_opt += o.primal_below_opt; self.infeasible_instances += o.infeasible_instances;
         self.merges += o.merges; self.restricted += o.restricted; self.relaxed += o.relaxed; self.cache_hits += o.cache_hits; self.dom_pruned += o.dom_pruned;
         self.relax_calls += o.relax_calls; self.layers_checked += o.layers_checked; self.long_arc_instances += o.long_arc_instances; self.twin_pairs += o.twin_pairs;
-        self.cache_twin_diff_explored += o.cache_twin_diff_explored; self.gap_checked += o.gap_checked;
+        self.cache_twin_diff_explored += o.cache_twin_diff_explored; self.gap_checked += o.gap_checked; self.max_fuel_permille = self.max_fuel_permille.max(o.max_fuel_permille);
         for (k, v) in o.outcomes { *self.outcomes.entry(k).or_insert(0) += v; }
         for (k, v) in o.monitor_hits { *self.monitor_hits.entry(k).or_insert(0) += v; }
         for s in o.samples { if self.samples.len() < 6 { self.samples.push(s); } }
@@ -181,6 +183,7 @@ pub fn run_instance(rep: &Reporter, focus: &[&str], plan: &Plan, idx: u64, agg: 
             let out = run_seq(m, &spec);
             agg.runs += 1;
             if out.explored >= 2 { agg.nontrivial += 1; }
+            if !out.fuel_out { agg.max_fuel_permille = agg.max_fuel_permille.max((out.polls * 1000 / fuel_for(m).max(1)) as u64); }
             add_stats(agg, &out);
             *agg.outcomes.entry(format!("exact={} value={}", out.is_exact, match out.best_value { None => "none", Some(_) => "some" })).or_insert(0) += 1;
             if out.gap == 0.0 || out.gap.is_nan() { agg.gap_checked += 1; }
